@@ -98,6 +98,6 @@ Definition ascii_req : list Z := (* GET /ws HTTP/1.1\r\nHost: h\r\nOrigin: o\r\n
    83;101;99;45;87;101;98;83;111;99;107;101;116;45;86;101;114;115;105;111;110;58;32;49;51;13;10;13;10].
 
 Lemma handshake_example :
-  ws_handshake ascii_req =
+  ws_handshake false ascii_req =
   HsOk (Some [47; 119; 115]) true (hs_proto_0 ++ rfc_accept ++ hs_proto_1 ++ s_base64 ++ hs_proto_2).
 Proof. vm_compute. reflexivity. Qed.
